@@ -1239,6 +1239,43 @@ fn call_order(src: &Src, fname: &str, gname: &str, known: &[(&str, u64)], what: 
 
 /// the block-job closure of parblock::queue_file_range: request size and offset of each kernel copy, the guard
 /// under which a zero-byte answer is the regular end, and the completion test
+/// the arms of `match copy_result` in the block-job closure of parblock::queue_file_range: how each answer of the kernel
+/// copy ends or continues the job.  0 = the job ends normally (`break Ok(())`), 1 = an Error update is sent and the job
+/// ends (`break stat_tx.send(StatusUpdate::Error(..))`), 2 = progress is recorded and the loop goes on, 99 = anything else
+fn block_job_arms(src: &Src) -> R<String> {
+    let (_, block) = find_fn(src, "queue_file_range")?;
+    struct V { m: Option<ExprMatch> }
+    impl<'ast> Visit<'ast> for V {
+        fn visit_expr_match(&mut self, m: &'ast ExprMatch) {
+            let t = quote::ToTokens::to_token_stream(&m.expr).to_string().replace(' ', "");
+            if t == "copy_result" && self.m.is_none() { self.m = Some(m.clone()); }
+            syn::visit::visit_expr_match(self, m)
+        }
+    }
+    let mut v = V { m: None };
+    v.visit_block(block);
+    let m = v.m.ok_or("queue_file_range: no `match copy_result`")?;
+    let mut rows = vec![];
+    for arm in &m.arms {
+        let mut p = quote::ToTokens::to_token_stream(&arm.pat).to_string().replace(' ', "");
+        if let Some((_, g)) = &arm.guard { p = format!("{}if{}", p, quote::ToTokens::to_token_stream(g).to_string().replace(' ', "")); }
+        // statements of the arm, logging dropped
+        let stmts: Vec<String> = match &*arm.body {
+            Expr::Block(bl) => bl.block.stmts.iter().map(|s| quote::ToTokens::to_token_stream(s).to_string().replace(' ', "")).collect(),
+            e => vec![quote::ToTokens::to_token_stream(e).to_string().replace(' ', "")],
+        };
+        let stmts: Vec<String> = stmts.into_iter().filter(|t| !(t.starts_with("error!") || t.starts_with("info!") || t.starts_with("warn!") || t.starts_with("debug!"))).collect();
+        let b = stmts.join("");
+        let code = if b == "breakOk(())" { 0 }
+            else if stmts.len() == 1 && b.starts_with("breakstat_tx.send(StatusUpdate::Error(") { 1 }
+            else if b.contains("done+=") && b.contains("stat_tx.send(StatusUpdate::Copied(") && !b.contains("StatusUpdate::Error") { 2 }
+            else { 99 };
+        rows.push(format!("(\"{}\", {})", p.replace('"', "\"\""), code));
+    }
+    Ok(format!("(* {}:{}  the block job: what each answer of the kernel copy does (0 ends the job, 1 sends an Error update and ends it, 2 records progress and goes on) *)\nDefinition x_block_job_arms : list (string * N) := [{}].\n",
+               src.path, m.span().start().line, rows.join("; ")))
+}
+
 fn block_job_exprs(src: &Src) -> R<String> {
     let (_, block) = find_fn(src, "queue_file_range")?;
     struct V { call: Option<syn::ExprCall>, guard: Option<Expr>, complete: Option<Expr> }
@@ -2015,6 +2052,7 @@ fn main() {
             emit("queue_file_range.bytes", let_function(&src, "queue_file_range", "bytes", "x_qfr_bytes", &p4, "N", &[]), &mut out);
             emit("queue_file_range.off", let_function(&src, "queue_file_range", "off", "x_qfr_off", &p4, "N", &[]), &mut out);
             emit("queue_file_range.block_job", block_job_exprs(&src), &mut out);
+            emit("block job arms", block_job_arms(&src), &mut out);
             emit("queue_file_blocks", call_order(&src, "queue_file_blocks", "x_queue_file_blocks_steps",
                 &[("CopyHandle::new", 40), ("try_reflink", 4), ("Arc::new", 41), ("probably_sparse", 30), ("map_extents", 42), ("merge_extents", 43),
                   ("queue_file_range", 44), ("queue_whole_file", 45)],
